@@ -253,7 +253,7 @@ AnsCases == { AnsCase(i, pl, j) : i \in 1..Len(AnsKinds), pl \in BOOLEAN, j \in 
 \* x number of decimal digits of eps (0 .. 4, and a negative eps).  The assertion may hold or fail; the failure must be
 \* REPORTED, i.e. its message must be rendered.
 MsgVals == <<"1", "0.94", "0.5", "0.0094", "0.005", "0.00051", "0.000049", "-0.0094", "-0.6", "123456.789">>
-MsgEps == <<"0", "1", "0.1", "0.01", "0.001", "0.0001", "0.25 - 5">>
+MsgEps == <<"0", "1", "0.1", "0.01", "0.001", "0.0001", "0.25 - 5", "1e-17", "1e-30", "1e-116">>
 MsgCase(i, j, k) == [fam |-> "assert-message", id |-> "assert-message/" \o MsgVals[i] \o "/" \o MsgVals[j] \o "/" \o MsgEps[k],
                      parts |-> << P("assert_eq(", 1), P(MsgVals[i], 1), P(", ", 1), P(MsgVals[j], 1), P(", ", 1), P(MsgEps[k], 1), P(")", 1) >>,
                      sess |-> "prelude", exact |-> "na", n |-> 3, val |-> "", lit |-> "na", rep |-> 1]
